@@ -171,7 +171,7 @@ func c03ModelAcceptStuck(n, t10 int, c *c03Cand) (bool, string) {
 //   - signer set of every expel in {all other nodes, the non-expelled nodes, the
 //     non-expelled nodes but one (negative; only tried with full vote sets)},
 //   - every assignment (absent | fact) of the non-expelled nodes, facts {A, B, A_E, B_E}
-//     (reduced configs: {A, B, A_E}, nobody absent except the last node),
+//     (reduced configs: the first j nodes vote A, the others B, every j; the last one optionally A_E or absent),
 //   - claimed majority: nil, every voted fact, one fact nobody voted, a fact of another point,
 //   - threshold field 100, and the network's t (negative) when t != 100,
 //
@@ -232,7 +232,7 @@ func (w *c03World) stuckProduct(l *c03Local, t10 int, emask int, reduced bool) {
 			switch {
 			case so == 2 && !full:
 				return
-			case reduced && !full && !c03OnlyLastAbsent(votes, voters):
+			case reduced && !c03StuckThin(votes, voters, menu):
 				return
 			}
 
@@ -316,14 +316,27 @@ func (w *c03World) stuckProduct(l *c03Local, t10 int, emask int, reduced bool) {
 	}
 }
 
-// reduced configs: only the last non-expelled node may be absent
-func c03OnlyLastAbsent(votes []c03Vote, voters []int) bool {
-	if len(votes) < 1 || len(votes) != len(voters)-1 {
+// reduced configs: the first j non-expelled nodes vote A and the others B (every j), optionally the last
+// one votes A_E instead or is absent.
+func c03StuckThin(votes []c03Vote, voters []int, menu []c03Fact) bool {
+	if len(votes) < 1 || len(votes) < len(voters)-1 {
 		return false
 	}
 
+	sawB := false
+
 	for i := range votes {
-		if votes[i].Node != voters[i] {
+		switch {
+		case votes[i].Node != voters[i]: // only the last voter may be absent
+			return false
+		case i == len(voters)-1 && votes[i].Fact == menu[2]:
+		case votes[i].Fact == menu[0]:
+			if sawB {
+				return false
+			}
+		case votes[i].Fact == menu[1]:
+			sawB = true
+		default:
 			return false
 		}
 	}
@@ -333,7 +346,7 @@ func c03OnlyLastAbsent(votes []c03Vote, voters []int) bool {
 
 const c03sRule = " STUCK: per (n, t, stage) and non-empty proper expelled set E also every INIT/ACCEPT STUCK voteproof: each expel " +
 	"signed by {all other nodes | the non-expelled nodes | the non-expelled nodes but one (negative)} x (absent | fact) per " +
-	"non-expelled node over {A,B,A_E,B_E} (reduced configs {A,B,A_E}, only the last node may be absent) x claimed majority " +
+	"non-expelled node over {A,B,A_E,B_E} (reduced configs: the first j nodes vote A and the others B, every j, the last one optionally A_E or absent) x claimed majority " +
 	"{nil, every voted fact, a fact nobody voted, a fact of another point} x threshold field {100, the network's t (negative)}, " +
 	"built the way a decoded voteproof looks (majority and threshold written after Finish); plus per E two constructions in the " +
 	"ballotbox's own order (majority handed in before Finish; all agree / one disagrees), which must be accepted as DRAW. They " +
